@@ -60,6 +60,7 @@ var cores = []string{
 	"spin-cfor-empty", "spin-true-empty", "spin-forin-empty", "spin-recursion-quiet", "spin-forin-big", "spin-anon-expr", "block-recv-after-first",
 	"block-range-body-recv", "block-range-shared", "spin-fib", "spin-mutual",
 	"lib-spin-5", "lib-spin-v", "lib-block-5", "lib-block-v", "lib-spin-1", "lib-send", "lib-range", "lib-rec", "lib-closure",
+	"block-relay-implicit", "block-relay-explicit", "block-relay-func", "spin-ptr-cycle", "spin-ptr-cycle-set",
 	"spin-quiet-elseif", "spin-quiet-else", "spin-quiet-switch", "spin-quiet-try", "spin-quiet-nested",
 	"block-fanin-send", "block-fanout-recv",
 	"block-recv-if", "block-recv-arg", "block-recv-switch",
@@ -116,6 +117,18 @@ func renderCore(core string, u string) string {
 		return "func r" + u + "(n) { if n > 0 { r" + u + "(n - 1) }; tick() }\nfor { r" + u + "(3) }"
 	case "spin-empty":
 		return "for { }"
+	// a relay that has taken its item and now waits for a receiver nobody provides
+	case "block-relay-implicit":
+		return "rs" + u + " = make(chan int64, 1)\nrs" + u + " <- 1\nrd" + u + " = make(chan int64)\nrd" + u + " <- rs" + u
+	case "block-relay-explicit":
+		return "rs" + u + " = make(chan interface, 2)\nrs" + u + " <- 1\nrs" + u + " <- 2\nrd" + u + " = make(chan interface, 1)\nfor { rd" + u + " <- <-rs" + u + " }"
+	case "block-relay-func":
+		return "func rl" + u + "(a, b) { b <- a }\nrs" + u + " = make(chan int64, 1)\nrs" + u + " <- 1\nrl" + u + "(rs" + u + ", make(chan int64))"
+	// a pointer that points at itself, used where the interpreter follows pointers
+	case "spin-ptr-cycle":
+		return "pa" + u + " = 1\npp" + u + " = &pa" + u + "\n*pp" + u + " = pp" + u + "\nfor {\ntry { pv" + u + " = pp" + u + ".x } catch { }\ntick()\n}"
+	case "spin-ptr-cycle-set":
+		return "pa" + u + " = 1\npp" + u + " = &pa" + u + "\n*pp" + u + " = pp" + u + "\nfor {\ntry { pp" + u + ".x = 1 } catch { }\ntry { pw" + u + " = *pp" + u + " } catch { }\ntick()\n}"
 	// functions whose body contains no call, no channel operation and no loop - except one, tucked into a branch
 	case "spin-quiet-elseif":
 		return "func q" + u + "(a) {\nif a == 0 { } else if a == 1 {\nfor { }\n} else { }\nreturn a\n}\nq" + u + "(1)"
